@@ -934,7 +934,19 @@ def _check_cluster(case, ctx):
     ratio = float(case["ratio"])
     np.random.seed(int(case["seed"]))
     nb = [c.num_users for c in cells]
-    if counts:
+    if counts and len(counts) == N and int(case["seed"]) % 3 != 0:
+        # the short form: `cell_ids` omitted = all cells, one count for all
+        # (every cell then gets the first count), the minimum distance by
+        # keyword; every third time with a per-cell list of ratios
+        counts = [counts[0]] * N
+        ctx.label("cluster:add_random_users_all_cells_form")
+        with _watchdog(tags):
+            if int(case["seed"]) % 3 == 1:
+                cl.add_random_users(num_users=counts[0],
+                                    min_dist_ratio=ratio)
+            else:
+                cl.add_random_users(None, counts, None, [ratio] * N)
+    elif counts:
         with _watchdog(tags):
             cl.add_random_users(list(range(1, len(counts) + 1)), counts,
                                 None, ratio)
